@@ -356,8 +356,8 @@ PROPS = {
         assumptions=["std::bad_alloc / std::length_error are accepted failures unless the allocation cap fired"],
         extra_harnesses=["cdns-merge", "cdns-itemcount", "cdns-items", "cdns-blocks", "cdns-preamble", "mutread", "mutread_plain", "fuzz_reader", "fuzz_decoder"],
         jobs=[
-            dict(harness="mutread", prop="c03_reader", cases=(64000, 2400000), size=(40, 100), env=dict(ASAN_OPTIONS="max_allocation_size_mb=64")),
-            dict(harness="mutread", prop="c03_decoder", cases=(64000, 2400000), size=(40, 100), env=dict(ASAN_OPTIONS="max_allocation_size_mb=64")),
+            dict(harness="mutread", prop="c03_reader", cases=(64000, 400000), size=(40, 100), env=dict(ASAN_OPTIONS="max_allocation_size_mb=64")),
+            dict(harness="mutread", prop="c03_decoder", cases=(64000, 400000), size=(40, 100), env=dict(ASAN_OPTIONS="max_allocation_size_mb=64")),
             dict(harness="tools", prop="c03_tools", cases=(1600, 48000), size=(30, 60)),
             dict(kind="py", func="fuzz", targets=["fuzz_reader", "fuzz_decoder"], runs=(150000, 0), max_total_time=(0, 600), procs=(2, 4), max_len=16384),
             dict(kind="py", func="valgrind_slice", tiers=("thorough",), props=[("c03_reader", 300), ("c03_decoder", 150)]),
